@@ -21,6 +21,9 @@ ORACLE (implementation line only; equality = gen_serde.sval_eq / tv_eq):
   * tryfrom     when both succeed the trees are equal; one side failing is accepted only where the two entry points
                 differ by contract (a non-table root or a char key is fine for Value::try_from, not for a document).
 
+Duplicate-key family (kind `dup-key`, gen_serde.dup_key_case; outside has_type): `tryfrom` on maps written from a list of
+pairs that repeats a key — try_from and parse(to_string) must end up with the same value for the repeated key.
+
 Known classes (recorded defects, see DESIGN.md section 7 / known_findings.json):
   C13-tryinto-datetime-string  `impl Deserializer for toml::Value` hands a date-time to the visitor as a STRING
         (`Value::Datetime(v) => visitor.visit_string`): via toml::Value / toml::Table `try_into` a Datetime/Date/Time
@@ -56,13 +59,15 @@ THEOREMS = [
 ]
 RULE = ("(type, document) pairs: documents rendered from a random value of the type in random layouts, the same with one "
         "tree mutation (extra / missing / retyped / out-of-range entry) or decoded at a mutated type; library-serialized "
-        "texts of random supported values; try_from vs parse(to_string); non-trivial = type depth >= 2")
+        "texts of random supported values; try_from vs parse(to_string), also on the duplicate-key family (maps written from "
+        "pair lists that repeat a key); non-trivial = type depth >= 2")
 ASSUMPTIONS = [
     "serde_derive / serde's std impls are written into coq/Model/Ser.v, De.v as their functional spec; the same protocol is `dynserde`, checked on every run against real derived types (command `fidelity`)",
     "python-rendered documents are TOML 1.0 by construction (the harness reports `valid=`; an invalid rendering is a generator bug and fails the check)",
     "which tree a text parses to, and that from_str / from_slice / from_document(DocumentMut | ImDocument) / Deserializer::from_str hand the same tree to toml_edit's deserializer, is below the level of the Coq statements: these routes are told apart on the implementation only (the model gives one answer for t e esl edoc eim efs, and one for tvd evd)",
     "the model reads the tree the texts were rendered from (fourth argument of a `routes` case), not the texts",
     "the Coq universe has no untyped toml::Value leaf (cases with it: oracle only); has_type as in C07",
+    "the duplicate-key family (a key repeated in one serialized map) is outside has_type: judged by the oracle and tied to the model, no theorem speaks about it",
 ]
 
 N_FIDELITY = 37
@@ -282,6 +287,11 @@ def gen_cases(rng, tier):
             v = gu.value(ty)
             out.append(vcase("tryfrom", ty, v, "tryfrom-any"))
             out.append(vcase("routes_ser", ty, v, "serialized-any"))
+    # the duplicate-key family (gen_serde.dup_key_case, outside has_type): a map written from a pair list that repeats
+    # a key — Value::try_from / Table::try_from must keep the same (the LAST) value as the serialized text does
+    for _ in range(400 if tier == "quick" else 6000):
+        ty, v = G.dup_key_case(rng)
+        out.append(vcase("tryfrom", ty, v, "dup-key"))
     return out
 
 
